@@ -71,6 +71,11 @@ var c18Templates = []c18Template{
 	metT("min_by", "min by (container) (bytes_over_time(", "))"),
 	metT("max_without", "max without (msg) (count_over_time(", "))"),
 	metT("count_by", "count by (container_image) (count_over_time(", "))"),
+	// grouping by labels whose names and values are prefixes and joins of one another (gen.go, "prefix")
+	metT("sum_by_ab", "sum by (a, b) (count_over_time(", "))"),
+	metT("sum_by_prefixes", "sum by (a, ab, abc, b, tier) (count_over_time(", "))"),
+	metT("count_by_xy", "count by (x, y) (count_over_time(", "))"),
+	metT("sum_without_ids", "sum without (msg, container, container_id, container_name, container_image, container_image_id, container_command, container_created, container_state, container_status) (count_over_time(", "))"),
 	metT("vec_lit", "count_over_time(", ") * 3"),
 	{name: "sum_unwrap", metric: true, build: func(a, _, r string) string {
 		return "sum by (container) (sum_over_time(" + a + " | unwrap weight [" + r + "]))"
